@@ -202,6 +202,12 @@ func (c *ShipConnection) setAndHandleState(state model.ShipMessageExchangeState)
 
 // SHIP handshake is approved, now set the new state and the SPINE read handler
 func (c *ShipConnection) approveHandshake() {
+	// the connection may have been closed (and reported as closed) by another goroutine
+	// while the last handshake message was processed
+	if c.isClosed() {
+		return
+	}
+
 	// Report to SPINE local device about this remote device connection
 	c.dataReader = c.infoProvider.SetupRemoteDevice(c.remoteSKI, c)
 	c.stopHandshakeTimer()
@@ -284,6 +290,14 @@ func (c *ShipConnection) disableHandshakeTimer() {
 	c.handshakeTimerMux.Unlock()
 
 	c.stopHandshakeTimer()
+}
+
+// reports if CloseConnection was invoked
+func (c *ShipConnection) isClosed() bool {
+	c.handshakeTimerMux.Lock()
+	defer c.handshakeTimerMux.Unlock()
+
+	return c.handshakeTimerDisabled
 }
 
 // mark the timer using the provided stop channel as expired
